@@ -1,4 +1,257 @@
 import Tfv.Model
+import Tfv.Spec.WellTyped
+import Tfv.Proofs.ParseInv
+import Tfv.Proofs.ParseTypeOk
+import Tfv.Proofs.ExprTyped
+import Tfv.Proofs.ExprExamples
+/-!
+# C04 — every expression the parser returns is well typed at every application node
+
+In any expression returned by the parser or by applying operators as Python objects, after
+fixing, each application node's function part has a function type whose input is a supertype of
+the argument's type and whose output is the node's type; each operator leaf carries an instance
+of its declared signature, and each annotated sub-expression `e : T` has a type that is a subtype
+of `T`.
+
+Reading guide. `WellTyped L ρ e` and `TypedIn L σ e` are in `Spec/WellTyped.lean`: `TypedIn L σ e`
+says the node types of `e` are well-formed terms of the store `σ` and, under *every* solution `ρ`
+of `σ` (`Sat L ρ σ`, `Spec/Sat.lean`), every application node `f x : t` of `e` satisfies
+`den ρ f.ty = p ** den ρ t` with `den ρ x.ty ≤ p` (or both `f` and the node have type `Top`).
+`GoodStore L σ` is the invariant of the constraint-free engine (`OkStore L σ ∧ NoConstraints σ`).
+`Step L σ σ'` (`Proofs/InferSound.lean`) is a sound successor store: `σ'` is good, has at least
+the variables of `σ`, and every solution of `σ'` is a solution of `σ`.
+
+Scope: operator declarations without constraints whose bodies are well formed (`OpsOk`), alias
+bodies well formed (`AliasesOk`), a well-formed language (`WF`). All statements are full (no
+`_partial`): no statement of the task turned out false of the model.
+Statements only; proofs in `Tfv/Proofs/ParseInv.lean`, `ParseTypeOk.lean`, `ExprTyped.lean`.
+-/
 namespace Tfv.C04
-theorem placeholder : True := trivial
+open Tfv Tfv.C03P Tfv.C04P Tfv.ParseInv
+
+/-! ## 1. the generic invariant lemma for the stack machine -/
+
+/-- The invariant lemma for the loop of `parse_expr`, for any builder: if the four builder
+operations preserve the state invariant `I`, are `step`s, and produce `Q`-expressions from
+`Q`-arguments (`BuilderInv`), and `Q` is monotone along `step`, then from a state with `I`,
+`Q`-inputs and a `Q`-stack the loop ends (when it succeeds) in such a state again. -/
+theorem C04_stack_machine_loop {S E : Type} (P : PLang) (B : Builder S E) (I : S → Prop) (Q : S → E → Prop)
+    (step : S → S → Prop) (H : BuilderInv P B I Q step) (inputs : List E) (defaults : Bool)
+    (n : Nat) (s s' : EState S E) (toks : List String)
+    (hs : LoopInv I Q inputs s) (h : parseExprLoop P B inputs defaults n s toks = .ok s') :
+    LoopInv I Q inputs s' := parseExprLoop_inv H inputs defaults n s toks s' hs h
+
+/-- … and for `parse_expr` itself: the returned state satisfies `I`, the returned expression `Q`. -/
+theorem C04_stack_machine {S E : Type} (P : PLang) (B : Builder S E) (I : S → Prop) (Q : S → E → Prop)
+    (step : S → S → Prop) (H : BuilderInv P B I Q step) (inputs : List E) (st0 st : S)
+    (toks : List String) (e : E) (hI : I st0) (hin : InputsQ Q st0 inputs)
+    (h : parseExprToks P B inputs st0 toks = .ok (st, e)) :
+    I st ∧ InputsQ Q st inputs ∧ Q st e := parseExprToks_inv H hI hin h
+
+/-- the premises are satisfiable in a non-trivial way: the typed builder with the store invariant -/
+example : BuilderInv c4P (typedBuilder c4P.types c4ops true) (fun s => GoodStore c4P.types s.store)
+    (fun s e => TypedIn c4P.types s.store e) (XStep c4P.types) :=
+  typedBuilder_inv c4L_wf c4P_aliases c4ops_ok true
+
+/-! ## 2. the four operations of the typed builder -/
+
+/-- `Source()` keeps the store good, is a sound step, and the new source is typed in the new store. -/
+theorem C04_mkSource_typed (L : Lang) (s : XState) (g : GoodStore L s.store) :
+    GoodStore L (mkSourceT s).1.store ∧ Step L s.store (mkSourceT s).1.store ∧
+    TypedIn L (mkSourceT s).1.store (mkSourceT s).2 := mkSource_typed s g
+
+example : GoodStore c4L s1.store ∧ mkSourceT s1 = (s2, eS) := ⟨s1_good, ex_s⟩
+
+/-- `Operator.instance()` for declarations without constraints: good store, sound step, typed leaf. -/
+theorem C04_mkOp_typed (L : Lang) (wf : WF L) (ops : List OperatorDecl) (hops : OpsOk L ops)
+    (s s' : XState) (name : String) (e : TExpr) (g : GoodStore L s.store)
+    (h : mkOpT L ops s name = .ok (s', e)) :
+    GoodStore L s'.store ∧ Step L s.store s'.store ∧ TypedIn L s'.store e := mkOp_typed wf hops g h
+
+example : WF c4L ∧ OpsOk c4L c4ops ∧ GoodStore c4L ({} : XState).store ∧ mkOpT c4L c4ops {} "g" = .ok (s1, eG) :=
+  ⟨c4L_wf, c4ops_ok, empty_good _, ex_g⟩
+
+/-- `Application(f, x)`: from typed `f` and `x` the new node is typed in the new store — under every
+solution of the new store the function part means `p ** t` with the argument below `p`. -/
+theorem C04_mkApp_typed (L : Lang) (wf : WF L) (fixFlag : Bool) (s s' : XState) (f x e : TExpr)
+    (g : GoodStore L s.store) (hf : TypedIn L s.store f) (hx : TypedIn L s.store x)
+    (h : mkAppT L fixFlag s f x = .ok (s', e)) :
+    GoodStore L s'.store ∧ Step L s.store s'.store ∧ TypedIn L s'.store e := mkApp_typed wf g hf hx h
+
+example : GoodStore c4L s2.store ∧ TypedIn c4L s2.store eF ∧ TypedIn c4L s2.store eS ∧
+    mkAppT c4L true s2 eF eS = .ok (s3, eFS) := ⟨s2_good, eF_typed _, eS_typed, ex_app1⟩
+
+/-- `e : T` keeps the store good and the annotated tree typed. The annotation term has to be a
+well-formed term of the store after the `nfresh` variables for its `_` were allocated
+(`C04_annotation_term_ok`: the parser's annotation terms are). -/
+theorem C04_annotate_typed (L : Lang) (wf : WF L) (s s' : XState) (previous e : TExpr) (t : Term)
+    (nfresh : Nat) (prevDash : Bool) (g : GoodStore L s.store) (hp : TypedIn L s.store previous)
+    (ht : okTerm L (allocVars s.store nfresh 0) t = true)
+    (h : annotateT L s previous t nfresh prevDash = .ok (s', e)) :
+    GoodStore L s'.store ∧ Step L s.store s'.store ∧ TypedIn L s'.store e :=
+  annotate_typed3 wf g hp ht h
+
+/-- After a successful annotation `e : T` the type of the annotated expression is a subtype of `T`
+under every solution of the resulting store and of every later store. -/
+theorem C04_annotation (L : Lang) (wf : WF L) (s s' : XState) (previous e : TExpr) (t : Term)
+    (nfresh : Nat) (prevDash : Bool) (g : GoodStore L s.store) (hp : TypedIn L s.store previous)
+    (ht : okTerm L (allocVars s.store nfresh 0) t = true)
+    (h : annotateT L s previous t nfresh prevDash = .ok (s', e)) :
+    ∀ σ'' ρ, Step L s'.store σ'' → Sat L ρ σ'' → Sub L (den ρ e.ty) (den ρ t) :=
+  annotation_later wf g hp ht h
+
+example : GoodStore c4L t0.store ∧ TypedIn c4L t0.store eI ∧
+    okTerm c4L (allocVars t0.store 0 0) (.app 6 []) = true ∧
+    annotateT c4L t0 eI (.app 6 []) 0 false = .ok (t1, eI) ∧ Sat c4L (valOf [.app 6 []]) t1.store :=
+  ⟨t0_good, eI_typed, by decide, ex2_annot, ex2_sat⟩
+
+/-- The type parser only produces well-formed terms: arities respected, variables exactly the
+ones made for `_` (numbers `varBase … varBase + nfresh - 1`). -/
+theorem C04_parse_type_ok (P : PLang) (wf : WF P.types) (ha : AliasesOk P) (consumeAll : Bool) (varBase : Nat)
+    (toks rest : List String) (t : Term) (nfresh : Nat)
+    (h : parseTypeLoop P consumeAll varBase {} toks = .ok (t, nfresh, rest)) :
+    okTermN P.types (varBase + nfresh) t = true := parseTypeLoop_init_ok wf ha h
+
+/-- … hence the annotation terms the expression parser hands to `annotateT` satisfy the
+hypothesis of `C04_annotate_typed` / `C04_annotation`. -/
+theorem C04_annotation_term_ok (P : PLang) (wf : WF P.types) (ha : AliasesOk P) (σ : Store)
+    (toks rest : List String) (t : Term) (nfresh : Nat)
+    (h : parseTypeLoop P false σ.vars.length {} toks = .ok (t, nfresh, rest)) :
+    okTerm P.types (allocVars σ nfresh 0) t = true := annotation_term_ok wf ha h
+
+example : WF c4P.types ∧ AliasesOk c4P ∧
+    parseTypeLoop c4P false t0.store.vars.length {} ["B", ")"] = .ok (.app 6 [], 0, [")"]) :=
+  ⟨c4L_wf, c4P_aliases, ex2_type⟩
+
+/-- The typed builder satisfies the premises of the generic invariant lemma with the store
+invariant `GoodStore` and the predicate `TypedIn`. -/
+theorem C04_typedBuilder_inv (P : PLang) (wf : WF P.types) (ha : AliasesOk P) (ops : List OperatorDecl)
+    (hops : OpsOk P.types ops) (fixFlag : Bool) :
+    BuilderInv P (typedBuilder P.types ops fixFlag) (fun s => GoodStore P.types s.store)
+      (fun s e => TypedIn P.types s.store e) (XStep P.types) := typedBuilder_inv wf ha hops fixFlag
+
+/-! ## 3. the parser, `Expr.fix()`, `Expr.__call__` -/
+
+/-- The input expressions `Source()` handed to the parser are typed in the state they leave. -/
+theorem C04_mkInputs_typed (L : Lang) (n : Nat) (s s' : XState) (es : List TExpr)
+    (g : GoodStore L s.store) (h : mkInputs n s = (s', es)) :
+    GoodStore L s'.store ∧ Step L s.store s'.store ∧ ∀ e ∈ es, TypedIn L s'.store e :=
+  mkInputs_typed n s s' es g h
+
+example : GoodStore c4L ({} : XState).store ∧ mkInputs 1 {} = (t0, [eI]) := ⟨empty_good _, ex2_inputs⟩
+
+/-- MAIN. For operator declarations without constraints, whatever `parse_expr` returns is typed in
+the final store: every application node of the returned tree is well typed under every solution
+of the final store (and the inputs stay typed, the store stays good). -/
+theorem C04_nodes (P : PLang) (wf : WF P.types) (ha : AliasesOk P) (ops : List OperatorDecl)
+    (hops : OpsOk P.types ops) (fixFlag : Bool) (inputs : List TExpr) (s0 s : XState)
+    (toks : List String) (e : TExpr) (g : GoodStore P.types s0.store)
+    (hin : ∀ x ∈ inputs, TypedIn P.types s0.store x)
+    (h : parseExprToks P (typedBuilder P.types ops fixFlag) inputs s0 toks = .ok (s, e)) :
+    GoodStore P.types s.store ∧ (∀ x ∈ inputs, TypedIn P.types s.store x) ∧ TypedIn P.types s.store e :=
+  parse_nodes wf ha hops g hin h
+
+/-- `g(f -)` with `f : A ** B`, `g : x ** x`: the parser succeeds, the final store has a solution
+(`x := B`, the source of type `B`), so the statement is not vacuous -/
+example : WF c4P.types ∧ AliasesOk c4P ∧ OpsOk c4P.types c4ops ∧ GoodStore c4P.types ({} : XState).store ∧
+    parseExprToks c4P (typedBuilder c4P.types c4ops true) [] {} ["g", "(", "f", "-", ")"] = .ok (s4, eGFS) ∧
+    Sat c4L (valOf [.app 6 [], .app 6 []]) s4.store :=
+  ⟨c4L_wf, c4P_aliases, c4ops_ok, empty_good _, ex_parse, ex_sat4⟩
+
+/-- `f(1 : B)` with one input: an annotation inside a parse -/
+example : GoodStore c4P.types t0.store ∧ (∀ x ∈ [eI], TypedIn c4P.types t0.store x) ∧
+    parseExprToks c4P (typedBuilder c4P.types c4ops true) [eI] t0 ["f", "(", "1", ":", "B", ")"] = .ok (t1, eFI) ∧
+    Sat c4L (valOf [.app 6 []]) t1.store :=
+  ⟨t0_good, fun x hx => by rw [List.mem_singleton] at hx; subst hx; exact eI_typed, ex2_parse, ex2_sat⟩
+
+/-- The fixing pass of `Expr.fix()` (`fixExprCore`: sources to their most general type, applications
+to their most specific one) preserves it: solutions only shrink, the tree stays typed in the store
+after the pass, and the type of the root keeps its meaning. -/
+theorem C04_fixCore_nodes (L : Lang) (wf : WF L) (e e' : TExpr) (σ σ' : Store)
+    (g : GoodStore L σ) (ht : TypedIn L σ e) (h : fixExprCore L σ e = .ok (σ', e')) :
+    Step L σ σ' ∧ TypedIn L σ' e' ∧ ∀ ρ, Sat L ρ σ' → den ρ e'.ty = den ρ e.ty :=
+  fixExprCore_typed wf e σ σ' e' g ht h
+
+example : fixExprCore c4L s4.store eGFS = .ok (s5.store, eCore) ∧ GoodStore c4L s4.store :=
+  ⟨ex_fixCore, ⟨okStoreB_sound (by decide), noConstraintsB_sound (by decide)⟩⟩
+
+/-- Normalising every node type against the store the tree is typed in (`normExpr σ`) keeps the
+tree typed, and the type of the root keeps its meaning under every solution of `σ`. -/
+theorem C04_normExpr_nodes (L : Lang) (σ : Store) (e : TExpr) (ok : OkStore L σ) (h : TypedIn L σ e) :
+    TypedIn L σ (normExpr σ e) ∧ ∀ ρ, Sat L ρ σ → den ρ (normExpr σ e).ty = den ρ e.ty :=
+  normExpr_typed ok h
+
+example : normExpr s5.store eCore = eFixed := by
+  simp only [eCore, eG, eF, normExpr, ex_norm1, ex_norm2, ex_norm3, eFixed]
+
+/-- `Expr.fix()` (the fixing pass followed by normalisation against the final store) preserves it:
+the fixed tree is typed in the store after fixing, and the type of the root keeps its meaning
+under every solution of that store. -/
+theorem C04_fix_nodes (L : Lang) (wf : WF L) (e e' : TExpr) (σ σ' : Store)
+    (g : GoodStore L σ) (ht : TypedIn L σ e) (h : fixExpr L σ e = .ok (σ', e')) :
+    Step L σ σ' ∧ TypedIn L σ' e' ∧ ∀ ρ, Sat L ρ σ' → den ρ e'.ty = den ρ e.ty :=
+  fixExpr_typed wf e σ σ' e' g ht h
+
+example : fixExpr c4L s4.store eGFS = .ok (s5.store, eFixed) ∧
+    Sat c4L (valOf [.app 6 [], .app 5 []]) s5.store := ⟨ex_fix, ex_sat⟩
+
+/-- `Language.parse(text, *inputs)` with or without `Expr.fix()`: the result is typed in the final store. -/
+theorem C04_parseTyped_nodes (P : PLang) (wf : WF P.types) (ha : AliasesOk P) (ops : List OperatorDecl)
+    (hops : OpsOk P.types ops) (n : Nat) (toks : List String) (doFix : Bool) (s : XState) (e : TExpr)
+    (h : parseTyped P ops n toks doFix = .ok (s, e)) :
+    GoodStore P.types s.store ∧ TypedIn P.types s.store e := parseTyped_nodes wf ha hops h
+
+/-- the run asked for: `parseTyped` succeeds on `g ( f - )`, and the result is well typed under the
+solution `x := B`, source `: A` of the final store -/
+example : parseTyped c4P c4ops 0 ["g", "(", "f", "-", ")"] true = .ok (s5, eFixed) ∧
+    WellTyped c4L (valOf [.app 6 [], .app 5 []]) eFixed :=
+  ⟨ex_parseTyped,
+   (C04_parseTyped_nodes c4P c4L_wf c4P_aliases c4ops c4ops_ok 0 _ true s5 eFixed ex_parseTyped).2.wt _ ex_sat⟩
+
+example : parseTyped c4P c4ops 0 ["g", "(", "f", "-", ")"] false = .ok (s4, eGFS) := ex_parseTyped_nofix
+
+/-- Programmatic construction `f(x₁, x₂, …)` (`Expr.__call__`): from typed parts the result is typed. -/
+theorem C04_call_nodes (L : Lang) (wf : WF L) (xs : List TExpr) (s s' : XState) (f e : TExpr)
+    (g : GoodStore L s.store) (hf : TypedIn L s.store f) (hxs : ∀ x ∈ xs, TypedIn L s.store x)
+    (h : callT L s f xs = .ok (s', e)) :
+    GoodStore L s'.store ∧ Step L s.store s'.store ∧ TypedIn L s'.store e :=
+  callT_typed wf xs s s' f e g hf hxs h
+
+example : GoodStore c4L s2.store ∧ TypedIn c4L s2.store eF ∧ (∀ x ∈ [eS], TypedIn c4L s2.store x) ∧
+    callT c4L s2 eF [eS] = .ok (s3, eFS) :=
+  ⟨s2_good, eF_typed _, fun x hx => by rw [List.mem_singleton] at hx; subst hx; exact eS_typed, ex_call⟩
+
+/-- What `TypedIn` says, unfolded at an arbitrary application node `f x : t` of the tree (`SubExpr`):
+under every solution of the store, the function part has type `p ** t` with the argument's type
+a subtype of `p` — or the function part has type `Top` and so has the node. -/
+theorem C04_every_node (L : Lang) (σ : Store) (e f x : TExpr) (t : Term) (h : TypedIn L σ e)
+    (hs : SubExpr (.app f x t) e) (ρ : Val) (hρ : Sat L ρ σ) :
+    (∃ p, den ρ f.ty = .app FUN [p, den ρ t] ∧ Sub L (den ρ x.ty) p) ∨
+    (den ρ f.ty = .app TOP [] ∧ den ρ t = .app TOP []) := every_node h hs hρ
+
+/-- the inner node `f -` of `g(f -)` -/
+example : SubExpr eFS eGFS ∧ Sat c4L (valOf [.app 6 [], .app 6 []]) s4.store :=
+  ⟨.arg (.refl _), ex_sat4⟩
+
+/-! ## 4. operator leaves -/
+
+/-- An operator leaf made by `Operator.instance()` (an `Operation`, or a `Source` labelled with the
+name for a non-function operator) carries an instance of its declared signature: under every
+solution `ρ` of the resulting or any later store its type means the declared schema body under
+the substitution `v ↦ ρ (v + base)`, `base` the number of variables before instantiation. -/
+theorem C04_leaf_instance (L : Lang) (wf : WF L) (ops : List OperatorDecl) (hops : OpsOk L ops)
+    (s s' : XState) (name : String) (e : TExpr) (g : GoodStore L s.store)
+    (h : mkOpT L ops s name = .ok (s', e)) :
+    ∃ d ∈ ops, d.name = name ∧
+      (e = .op name e.ty ∨ e = .src s.nsrc (some name) e.ty) ∧
+      ∀ σ'' ρ, Step L s'.store σ'' → Sat L ρ σ'' →
+        den ρ e.ty = den (fun v => ρ (v + s.store.vars.length)) d.schema.body :=
+  leaf_instance wf hops g h
+
+/-- shifting a schema body is substituting `v ↦ ρ (v + base)` -/
+theorem C04_den_shift (ρ : Val) (base : Nat) (t : Term) :
+    den ρ (t.shift base) = den (fun v => ρ (v + base)) t := den_shift ρ base t
+
+example : mkOpT c4L c4ops s1 "f" = .ok (s1, eF) ∧ GoodStore c4L s1.store := ⟨ex_f, s1_good⟩
+
 end Tfv.C04
